@@ -176,6 +176,30 @@ func (m *Machine) builtin(name string, args []Value, cc *ssa.CallCommon) Value {
 			}
 		}
 		return nil
+	case "clear":
+		switch x := args[0].(type) {
+		case MapV:
+			if x.M != nil {
+				x.M.Keys, x.M.Vals = nil, nil
+			}
+			return nil
+		case Slice:
+			if x.Base.Obj == nil {
+				return nil
+			}
+			elemT := cc.Args[0].Type().Underlying().(*types.Slice).Elem()
+			cell, _ := m.resolve(x.Base)
+			if isByte(elemT) {
+				bc := cell.(*bytesCell)
+				bc.r = m.ropeSplice(bc.r, x.Off, x.Len, m.zeroRope(x.Len))
+				return nil
+			}
+			off, n := m.concreteInt(x.Off, "clear"), m.concreteInt(x.Len, "clear")
+			for i := 0; i < n; i++ {
+				m.storeCell(cell.(*arrCell).e[off+i], m.zeroValue(elemT))
+			}
+			return nil
+		}
 	case "recover":
 		if m.curPanic != nil && m.curPanic.panicking != nil {
 			gp := m.curPanic.panicking
@@ -569,6 +593,32 @@ func (m *Machine) intercept(fn *ssa.Function) (func([]Value) Value, bool) {
 				}
 			}
 			return v
+		}, true
+	case "internal/bytealg.IndexByteString", "internal/bytealg.IndexByte":
+		// first index of byte c in s (length concrete; contents may be symbolic: one fork per position)
+		return func(args []Value) Value {
+			r, n := m.bytesOf(args[0])
+			k := m.concreteInt(n, "IndexByte length")
+			cb := args[1].(Int).T
+			for i := 0; i < k; i++ {
+				if m.branch(c.Eq(m.ropeAt(r, m.i64(i)), cb)) {
+					return Int{m.i64(i)}
+				}
+			}
+			return Int{m.i64(-1)}
+		}, true
+	case "internal/bytealg.CountString", "internal/bytealg.Count":
+		return func(args []Value) Value {
+			r, n := m.bytesOf(args[0])
+			k := m.concreteInt(n, "Count length")
+			cb := args[1].(Int).T
+			cnt := 0
+			for i := 0; i < k; i++ {
+				if m.branch(c.Eq(m.ropeAt(r, m.i64(i)), cb)) {
+					cnt++
+				}
+			}
+			return Int{m.i64(cnt)}
 		}, true
 	case "errors.As":
 		// model: walk the Unwrap chain; a link matches when its dynamic type is identical to the target's element type
